@@ -519,32 +519,28 @@ const c16Rule = "generated rule sets (all action kinds, nested includes, pattern
 	"and produce the same token stream / error as the original definition; non-trivial = the definition has an include and a push/pop " +
 	"and the input reaches a second state; distinct by SHA-256 of (rules, input)"
 
-func roundTrip(v any) (*lexer.StatefulDefinition, string) {
+func roundTrip(v any) (first, again *lexer.StatefulDefinition, msg string) {
 	data, err := json.Marshal(v)
 	if err != nil {
-		return nil, "Marshal failed: " + err.Error()
+		return nil, nil, "Marshal failed: " + err.Error()
 	}
 	var rules lexer.Rules
 	if err := json.Unmarshal(data, &rules); err != nil {
-		return nil, fmt.Sprintf("Unmarshal failed: %v\nJSON: %s", err, data)
+		return nil, nil, fmt.Sprintf("Unmarshal failed: %v\nJSON: %s", err, data)
 	}
-	var def *lexer.StatefulDefinition
-	if p := guard(func() { def, err = lexer.New(rules) }); p != "" {
-		return nil, fmt.Sprintf("New(unmarshalled rules) panicked: %s\nJSON: %s", p, data)
+	if p := guard(func() { first, err = lexer.New(rules) }); p != "" {
+		return nil, nil, fmt.Sprintf("New(unmarshalled rules) panicked: %s\nJSON: %s", p, data)
 	}
 	if err != nil {
-		return nil, fmt.Sprintf("New(unmarshalled rules) failed: %v\nJSON: %s", err, data)
+		return nil, nil, fmt.Sprintf("New(unmarshalled rules) failed: %v\nJSON: %s", err, data)
 	}
 	// the unmarshalled rules are a value like any other: a second definition built from them is the same definition
 	// (slices that json.Unmarshal grew have spare capacity, unlike slices written as literals)
-	var again *lexer.StatefulDefinition
 	if p := guard(func() { again, err = lexer.New(rules) }); p != "" || err != nil {
-		return nil, fmt.Sprintf("New(unmarshalled rules) succeeded once, the second call on the same rules: %v %s\nJSON: %s", err, p, data)
+		return nil, nil, fmt.Sprintf("New(unmarshalled rules) succeeded once, the second call on the same rules: %v %s\nJSON: %s", err, p, data)
 	}
-	if !reflect.DeepEqual(def.Symbols(), again.Symbols()) {
-		return nil, fmt.Sprintf("two definitions built from the same unmarshalled rules have different symbol tables:\n first  %v\n second %v\nJSON: %s", sortedSyms(def.Symbols()), sortedSyms(again.Symbols()), data)
-	}
-	return again, ""
+	// neither definition has been asked for its symbol table yet: the first thing the caller does with them is lex
+	return first, again, ""
 }
 
 // another definition whose JSON is about as long as a generated one's
@@ -556,6 +552,9 @@ var c16Other = lexer.MustStateful(lexer.Rules{
 
 type c16Defs struct {
 	orig, viaDef, viaRules *lexer.StatefulDefinition
+	viaDef2, viaRules2     *lexer.StatefulDefinition // built second from the same unmarshalled rules
+	rs                     *lexgen.RuleSet
+	symsChecked            bool // the rebuilt definitions are first lexed with, then asked for their symbols
 }
 
 func buildC16(rs *lexgen.RuleSet) (*c16Defs, string, outcome) {
@@ -579,7 +578,8 @@ func buildC16(rs *lexgen.RuleSet) (*c16Defs, string, outcome) {
 			userRules[state][i].Name = "Scribble"
 		}
 	}
-	d := &c16Defs{orig: def}
+	d := &c16Defs{orig: def, rs: rs}
+	_ = def.Symbols() // the original has been in use (a parser was built on it); the rebuilt ones are brand new
 	var msg string
 	var pmsg string
 	// what Rules() hands out is the caller's to edit as well: it must not be what the definition marshals later
@@ -596,7 +596,7 @@ func buildC16(rs *lexgen.RuleSet) (*c16Defs, string, outcome) {
 		return nil, "", violationf("roundtrip", "Rules() panicked: %s\n%s", pmsg, rs.String())
 	}
 	pmsg = guard(func() {
-		d.viaDef, msg = roundTrip(def)
+		d.viaDef, d.viaDef2, msg = roundTrip(def)
 	})
 	if pmsg != "" || msg != "" {
 		return nil, "", violationf("roundtrip", "marshalling the definition: %s%s\n%s", msg, pmsg, rs.String())
@@ -620,15 +620,10 @@ func buildC16(rs *lexgen.RuleSet) (*c16Defs, string, outcome) {
 		return nil, "", violationf("roundtrip", "marshalling the definition twice: %s%s\n%s", msg, pmsg, rs.String())
 	}
 	pmsg = guard(func() {
-		d.viaRules, msg = roundTrip(rs.ToRules())
+		d.viaRules, d.viaRules2, msg = roundTrip(rs.ToRules())
 	})
 	if pmsg != "" || msg != "" {
 		return nil, "", violationf("roundtrip", "marshalling the rule set: %s%s\n%s", msg, pmsg, rs.String())
-	}
-	for name, other := range map[string]*lexer.StatefulDefinition{"definition": d.viaDef, "rule set": d.viaRules} {
-		if !reflect.DeepEqual(def.Symbols(), other.Symbols()) {
-			return nil, "", violationf("symbols", "symbol table changed by the JSON round trip of the %s:\n before %v\n after  %v\n%s", name, sortedSyms(def.Symbols()), sortedSyms(other.Symbols()), rs.String())
-		}
 	}
 	return d, "", outcome{}
 }
@@ -700,6 +695,23 @@ func checkC16(c *lexCase, d *c16Defs, r *vstat.Run) outcome {
 	}
 	if m := sameRun(a, b2); m != "" {
 		return violationf("stream", "definition rebuilt from the rule set's JSON behaves differently: %s\ninput %q\n%s", m, c.Input, c.RS.String())
+	}
+	if m := sameRun(a, lexAll(d.viaDef2, "f", c.Input)); m != "" {
+		return violationf("stream", "the second definition built from the unmarshalled JSON of the definition behaves differently: %s\ninput %q\n%s", m, c.Input, c.RS.String())
+	}
+	if m := sameRun(a, lexAll(d.viaRules2, "f", c.Input)); m != "" {
+		return violationf("stream", "the second definition built from the unmarshalled JSON of the rule set behaves differently: %s\ninput %q\n%s", m, c.Input, c.RS.String())
+	}
+	if !d.symsChecked {
+		d.symsChecked = true
+		for _, o := range []struct {
+			name string
+			def  *lexer.StatefulDefinition
+		}{{"definition", d.viaDef}, {"definition (second build)", d.viaDef2}, {"rule set", d.viaRules}, {"rule set (second build)", d.viaRules2}} {
+			if !reflect.DeepEqual(d.orig.Symbols(), o.def.Symbols()) {
+				return violationf("symbols", "symbol table changed by the JSON round trip of the %s:\n before %v\n after  %v\n%s", o.name, sortedSyms(d.orig.Symbols()), sortedSyms(o.def.Symbols()), c.RS.String())
+			}
+		}
 	}
 	return outcome{}
 }
